@@ -206,6 +206,62 @@ fn close_number_ordering(rep: &mut Report, args: &Args) {
     }
 }
 
+/// Equality between values that are *almost* the same object / the same integer: objects of equal size whose key
+/// sets differ (a member that is null on one side and missing on the other is a difference), the same members in
+/// another order, integers beyond the signed 64-bit range and the doubles next to them — in every position where
+/// equality decides something (operator, filter, contains, nested in lists and hashes), both ways round.
+fn near_equal_values(rep: &mut Report, args: &Args, ev: &Evaluator, strict: &Opts) {
+    if args.shard != 1 % args.shards {
+        return;
+    }
+    let pool: Vec<Value> = vec![
+        json!({}), json!({"id": 1}), json!({"id": 1, "note": null}), json!({"id": 1, "memo": "x"}), json!({"id": 1, "memo": null}), json!({"note": null, "id": 1}), json!({"a": null}), json!({"b": null}),
+        json!({"a": null, "b": 1}), json!({"b": 1, "c": null}), json!({"id": 1.0, "note": null}), json!({"id": 1, "note": null, "memo": null}), json!({"id": 1, "memo": "x", "note": null}), json!({"a": {"x": null}}), json!({"a": {"y": 1}}),
+        json!({"a": {}}), json!({"a": []}), json!({"a": [null]}), json!([null]), json!([]), json!(null),
+        json!(18446744073709551615u64), json!(9223372036854775808u64), json!(4611686018427387904i64), json!(12345678901234567890u64), json!(16000000000000000000u64),
+        // (neighbours that round to the same double are left out: whether those are "equal" is the tolerance C10 describes)
+        json!(-9223372036854775808i64), json!(-4611686018427387904i64), json!(1.8446744073709552e19), json!(9.223372036854775808e18), json!(1e19), json!(42), json!(-1),
+    ];
+    const FORMS: [&str; 9] = ["a == b", "a != b", "[a] == [b]", "{x: a} == {x: b}", "contains([a, `0`], b)", "[a, b][?@ == $B] | length(@)", "[b, a, b][?@ != $A] | length(@)", "a == $B", "$A == b"];
+    let trees: Vec<Option<_>> = FORMS.iter().map(|f| if f.contains('$') { None } else { Some(parse(f, strict).expect("form parses")) }).collect();
+    for (i, x) in pool.iter().enumerate() {
+        for (j, y) in pool.iter().enumerate() {
+            let doc = json!({"a": x, "b": y});
+            for (k, f) in FORMS.iter().enumerate() {
+                if f.contains('$') && (i + j + k) % 3 != 0 {
+                    continue;
+                }
+                let text = f.replace("$A", &format!("`{}`", x)).replace("$B", &format!("`{}`", y));
+                let owned;
+                let tree = match &trees[k] {
+                    Some(t) => t,
+                    None => match parse(&text, strict) {
+                        Ok(t) => { owned = t; &owned }
+                        Err(_) => continue,
+                    },
+                };
+                rep.evaluations += 1;
+                let want = ev.eval(tree, &doc);
+                let got = guarded(|| jmespath::compile(&text).and_then(|e| e.search(rcvar_of(&doc))));
+                let ok = match (&want, &got) {
+                    (Err(e), _) if matches!(e.kind, refimpl::eval::ErrKind::Unconstrained(_)) => true,
+                    (Ok(w), Ok(Ok(g))) => value_of(g).map_or(false, |g| refimpl::json::val_eq(&g, w, 0.0)),
+                    _ => false,
+                };
+                if ok {
+                    rep.count("near_equal_values_ok");
+                    if i != j {
+                        rep.nontrivial(refimpl::rng::fnv(format!("neq|{}|{}|{}", i, j, k).as_bytes()));
+                    }
+                } else {
+                    rep.violation("C01/equality-of-nearly-equal-values", json!({"expression": text, "document": doc, "expected": format!("{:?}", want.as_ref().map(|v| v.to_string()).map_err(|e| e.class())),
+                        "got": format!("{:?}", got.map(|r| r.map(|v| v.to_string()).map_err(|e| e.to_string())))}));
+                }
+            }
+        }
+    }
+}
+
 /// Array sizes are a dimension of "all documents": every array-consuming core form over
 /// arrays of 0..=130 elements and around the powers of two up to 1024, against the
 /// reference evaluator (implementations switch strategy at size thresholds: inline
@@ -365,6 +421,7 @@ pub fn run(args: &Args) {
     enumerate_small(&mut rep, args, &ev, maxlen);
     close_number_ordering(&mut rep, args);
     size_sweep(&mut rep, args, &ev, &strict);
+    near_equal_values(&mut rep, args, &ev, &strict);
     chain_positions(&mut rep, args);
     let cdocs = crate::refcheck::compliance_docs();
     for i in 0..args.n {
